@@ -1,6 +1,8 @@
 package main
 
 import (
+	"bufio"
+	"bytes"
 	"errors"
 	"fmt"
 	"math"
@@ -95,6 +97,8 @@ type c01Built struct {
 	relEnc string
 	r      *ring.Ring
 	toks   []uint32
+	now    string // `now` written on the case line: "0", or "1" for the sub-second boundary stream
+	nowSec int64  // the whole second the heartbeats were made relative to
 }
 
 func c01Build(cfg c01Cfg, rel *ring.Desc) *c01Built {
@@ -124,7 +128,7 @@ func c01Build(cfg c01Cfg, rel *ring.Desc) *c01Built {
 	if err != nil {
 		panic(err)
 	}
-	return &c01Built{cfg: cfg, rel: rel, relEnc: relEnc, r: r, toks: r.VerifRingTokens()}
+	return &c01Built{cfg: cfg, rel: rel, relEnc: relEnc, r: r, toks: r.VerifRingTokens(), now: "0", nowSec: now}
 }
 
 // c01Predecessor derives (deterministically from the case) an earlier ring content, or nil.
@@ -204,7 +208,7 @@ func (b *c01Built) lookup(e *env, key uint32, op ring.Operation, api string, buf
 		}
 		ids = strings.Join(s, ",")
 	}
-	e.emit("C01.get", b.cfg.String(), "0", b.relEnc, strconv.FormatUint(uint64(key), 10), c01OpName(op), api,
+	e.emit("C01.get", b.cfg.String(), b.now, b.relEnc, strconv.FormatUint(uint64(key), 10), c01OpName(op), api,
 		u32s(b.toks), ids, itoa(rs.MaxErrors), cls)
 }
 
@@ -265,6 +269,7 @@ type c01Gen struct {
 	zones            []string
 	states           []ring.InstanceState
 	tokenless        bool
+	pReadOnly        int // out of 8: probability that an instance carries the ReadOnly flag (0: never, no randomness drawn)
 }
 
 func c01GenDesc(r *rng, g c01Gen) *ring.Desc {
@@ -299,6 +304,9 @@ func c01GenDesc(r *rng, g c01Gen) *ring.Desc {
 			}
 		}
 		sort.Slice(i.Tokens, func(a, b int) bool { return i.Tokens[a] < i.Tokens[b] })
+		if g.pReadOnly > 0 && r.intn(8) < g.pReadOnly {
+			i.ReadOnly = true // Get/GetWithOptions do not treat read-only instances specially
+		}
 		d.Ingesters[id] = i
 	}
 	return d
@@ -428,7 +436,7 @@ func runC01(e *env) {
 			if r.chance(1, 5) {
 				cfg.timeout = 3600
 			}
-			g := c01Gen{minInst: 1, maxInst: 7, maxTokens: 4, pAlphabet: 2, zones: c01Zones(r, cfg.za), states: c01States, tokenless: true}
+			g := c01Gen{minInst: 1, maxInst: 7, maxTokens: 4, pAlphabet: 2, zones: c01Zones(r, cfg.za), states: c01States, tokenless: true, pReadOnly: 1}
 			d := c01GenDesc(r, g)
 			if cfg.rf > len(d.Ingesters) && r.chance(2, 3) {
 				cfg.rf = 1 + r.intn(len(d.Ingesters))
@@ -512,6 +520,103 @@ func runC01(e *env) {
 					k = pick(r, b.toks) - uint32(r.intn(2))
 				}
 				b.lookup(e, k, c01RandOp(r), "get", r.intn(4))
+			}
+		}
+	}
+	// ---- zone-aware rings with read-only instances that own tokens, next to instances in extending
+	//      states: read-only is a shuffle-shard concept, a plain lookup must walk them like any other ----
+	{
+		r := newRng(e.seed, 106)
+		for c := 0; c < 120*e.scale; c++ {
+			cfg := c01Cfg{rf: 2 + r.intn(2), za: r.chance(7, 8), timeout: 60}
+			zs := []string{"a", "b", "c"}
+			if r.chance(1, 4) {
+				zs = []string{"a", "b"}
+			}
+			g := c01Gen{minInst: 3, maxInst: 7, maxTokens: 2, pAlphabet: 1, zones: zs, pReadOnly: 3,
+				states: []ring.InstanceState{ring.ACTIVE, ring.ACTIVE, ring.ACTIVE, ring.LEAVING, ring.JOINING, ring.PENDING}}
+			d := c01GenDesc(r, g)
+			if r.chance(1, 3) { // a whole zone read-only
+				z := pick(r, zs)
+				for id, in := range d.Ingesters {
+					if in.Zone == z {
+						in.ReadOnly = true
+						d.Ingesters[id] = in
+					}
+				}
+			}
+			for id, in := range d.Ingesters { // keep quorums reachable
+				if in.Timestamp < -2 {
+					in.Timestamp = 0
+					d.Ingesters[id] = in
+				}
+			}
+			b := c01Build(cfg, d)
+			keys := c01Keys(r, b.rel, 2)
+			for _, k := range keys {
+				if len(keys) > 12 && !r.chance(12, len(keys)) {
+					continue
+				}
+				b.lookup(e, k, pick(r, []ring.Operation{ring.Write, ring.Read, ring.Write, ring.Read, ring.WriteNoExtend, ring.Reporting}), "get", r.intn(4))
+			}
+		}
+	}
+	// ---- heartbeat ages at the timeout boundary, at sub-second resolution. time.Now() inside Filter
+	//      cannot be injected, so the ring is built and looked up inside ONE wall-clock second whose
+	//      sub-second part is non-zero: a heartbeat of floor(now)-timeout then has an age in
+	//      (timeout, timeout+1s) -> unhealthy, one of floor(now)-timeout+1 an age in (timeout-1s, timeout)
+	//      -> healthy. Timestamps and timeouts are whole seconds, so "age <= timeout" is exactly
+	//      "ceil(now) - ts <= timeout": the line carries now = 1 (= ceil) and ts relative to floor(now).
+	//      If the second rolls over before all lookups of a ring are done, the ring is redone.
+	{
+		r := newRng(e.seed, 107)
+		for c := 0; c < 100*e.scale; c++ {
+			cfg := c01Cfg{rf: 1 + r.intn(3), za: r.chance(1, 3), timeout: pick(r, []int{60, 60, 1, 5, 3600})}
+			g := c01Gen{minInst: 1, maxInst: 5, maxTokens: 2, pAlphabet: 1, zones: []string{"a", "b", "c"},
+				states: []ring.InstanceState{ring.ACTIVE, ring.ACTIVE, ring.ACTIVE, ring.ACTIVE, ring.LEAVING, ring.PENDING}}
+			d := c01GenDesc(r, g)
+			to := int64(cfg.timeout)
+			for id, in := range d.Ingesters {
+				in.Timestamp = pick(r, []int64{-to, -to, -to + 1, -to - 1, 0, 0, -to + 1})
+				d.Ingesters[id] = in
+			}
+			if cfg.rf > len(d.Ingesters) {
+				cfg.rf = len(d.Ingesters)
+			}
+			keys := c01Keys(r, d, 1)
+			type lk struct {
+				k   uint32
+				op  ring.Operation
+				buf int
+			}
+			var lks []lk
+			for _, k := range keys {
+				if len(keys) > 8 && !r.chance(8, len(keys)) {
+					continue
+				}
+				lks = append(lks, lk{k, pick(r, c01Ops), r.intn(4)})
+			}
+			for attempt := 0; ; attempt++ {
+				for ns := time.Now().Nanosecond(); ns < 2e6 || ns > 8e8; ns = time.Now().Nanosecond() {
+					time.Sleep(5 * time.Millisecond)
+				}
+				var buf bytes.Buffer
+				tmp := &env{seed: e.seed, tier: e.tier, quick: e.quick, scale: e.scale, w: bufio.NewWriter(&buf)}
+				b := c01Build(cfg, d)
+				b.now = "1"
+				for _, l := range lks {
+					b.lookup(tmp, l.k, l.op, "get", l.buf)
+				}
+				tmp.w.Flush()
+				if time.Now().Unix() == b.nowSec {
+					e.mu.Lock()
+					e.w.Write(buf.Bytes())
+					e.mu.Unlock()
+					break
+				}
+				if attempt > 20 { // the machine keeps stalling across second boundaries: drop the ring rather than emit a racy observation
+					break
+				}
 			}
 		}
 	}
